@@ -59,6 +59,8 @@ def run(c):
     corp = G.corpus()
     for name, t in corp:
         texts.append(("corpus", t))
+    for t in G.comment_positions():
+        texts.append(("comment-positions", t))
     big = [t for _, t in corp if len(t) > 200]
     small = [t for _, t in corp if 0 < len(t) <= 200]
     scale = 8 if c.thorough else 1
